@@ -395,6 +395,7 @@ def run(ctx):
         from ..rules import guardlen
         ng = guardlen.check_guarded_lengths(ck, prog, config, 'C01-h')
         nd = guardlen.check_deferred_flush(ck, prog, config, 'C01-h')
+        nd += guardlen.check_carried_bound(ck, prog, config, 'C01-h')
         ck.min_instances('guarded writes / held-back counters in the zck tool', ng + nd, 3)
         # ---- g  the descriptor write wrapper hands every byte over exactly once, also across short writes
         from ..rules import contwrite
@@ -407,7 +408,7 @@ def run(ctx):
 CLAIM = {
     'technique': 'flush typestate with the chunk-end function inlined and constant arguments propagated, sentinel '
                  'consistency rule, layout table comparison, linear conservation per loop segment, write/index '
-                 'pairing, relational order facts, stale-cache dataflow, write-retry continuation (result symbols, bounded unrolling), guarded-length lint by Fourier-Motzkin elimination and deferred-flush lint over the zck tool\'s scanner, std-descriptor reservation dominance in every tool main(), end-of-data typestate after every chunk end on the read side',
+                 'pairing, relational order facts, stale-cache dataflow, write-retry continuation (result symbols, bounded unrolling), guarded-length lint by Fourier-Motzkin elimination, deferred-flush and carried-counter-bound lints over the zck tool\'s scanner, std-descriptor reservation dominance in every tool main(), end-of-data typestate after every chunk end on the read side',
     'text': 'static analysis: decides necessary conditions C01-a..f - a successful close cannot leave a refused final '
             'chunk unwritten; the temp descriptor cannot take its sentinel value; writer and reader agree on the header '
             'layout; zck_write hands every byte of the buffer to the compressor exactly once; what goes to the temp '
@@ -418,6 +419,10 @@ CLAIM = {
 }
 
 MUTANTS = [
+    {'id': 'm01k', 'desc': 'end-of-block flush without the positivity test (pre-fix form)', 'file': 'src/zck.c',
+     'old': """        if(tail > 0)
+            write_data(zck, data + start, tail);""", 'new': """        write_data(zck, data + start, tail);""",
+     'expect': 'R4.carried-bound main'},
     {'id': 'm01j', 'desc': 'last chunk ended without noticing the end of the data', 'file': 'src/lib/comp/comp.c',
      'old': """            if(zck->comp.data_idx == NULL)
                 zck->comp.data_eof = true;
